@@ -5,6 +5,7 @@ use std::io::{self, BufRead, Write};
 
 mod enc;
 mod sub;
+mod tree;
 
 fn main() {
     let args: Vec<String> = std::env::args().collect();
